@@ -156,7 +156,7 @@ var propSpecs = []PropSpec{
 			}
 		}},
 	{ID: "C13", Pkgs: []string{".", "pubsub", "erc", "adt", "dt"},
-		BoundsQ:     "every unordered pair of public methods (11 Queue, 16 Deque, 8 WaitGroup, 7 Collector, 11 adt.Map, 5 Atomic, 5 Synchronized, 5 Once, 5 Pool, 10 synchronized Set operations; 12 Lock/Once/Limit wrappers x 2 callers) on one shared instance in two goroutines, every schedule class within preemption bound 2, happens-before (vector clock) monitor over every interpreted memory access",
+		BoundsQ:     "every unordered pair of public methods (11 Queue, 16 Deque, 8 WaitGroup, 7 Collector, 11 adt.Map, 5 Atomic, 5 Synchronized, 5 Once, 5 Pool, 12 synchronized Set operations; 12 Lock/Once/Limit wrappers x 2 callers) on one shared instance in two goroutines, every schedule class within preemption bound 2, happens-before (vector clock) monitor over every interpreted memory access",
 		BoundsT:     "triples (three goroutines) for the pair entries except Queue/Deque (pairs at preemption bound 3), 3 callers for wrappers, preemption bound 2",
 		Outside:     "pubsub.Broker (see C08/C09); more than three goroutines; races that need longer call sequences per goroutine; the monitor works at the granularity of interpreted cells (maps are one cell), data races inside the Go runtime objects themselves (sync.Map, sync.Pool) are outside (they are models)",
 		Assumptions: commonAssumptions,
@@ -181,6 +181,17 @@ var propSpecs = []PropSpec{
 		BoundsQ:     "table: the real CanContinueOnError with the three option bits symbolic, ExcludedErrors in {none, {E}}, 13 error shapes; scenarios: ProcessParallel over <=4 items and Map over <=3 items with 1-2 workers, the user function failing on one chosen item with one of 5 kinds (plain error, panic, skip, EOF, excluded), continue options on or off, preemption bound 1",
 		BoundsT:     "preemption bound 2",
 		Outside:     "GenerateParallel and the itertool wrappers (same classification code, not run as scenarios); two failing items; custom collectors; more workers/items",
+		Assumptions: commonAssumptions,
+		Tune: func(cfg *Config, tier, entry string) {
+			cfg.Preempt = 1
+			if tier == "thorough" {
+				cfg.Preempt = 2
+			}
+		}},
+	{ID: "C01", Pkgs: []string{"."},
+		BoundsQ:     "<=3 items {concrete id, symbolic value} through Split(1-2 outputs, one consumer goroutine each), ProcessParallel and Map (1-2 workers, Map adds a symbolic constant), Buffer/ParallelBuffer (size 1-2), MergeIterators (2 sources, every cut), GenerateParallel (<=2 items, 1-2 workers), two goroutines sharing ReadOne on a channel iterator; nothing aborts; preemption bound 1",
+		BoundsT:     "3 outputs/workers; preemption bound 2",
+		Outside:     "more items, workers or preemptions; itertool.ParallelForEach/Worker (thin wrappers over ProcessParallel); processing functions that block",
 		Assumptions: commonAssumptions,
 		Tune: func(cfg *Config, tier, entry string) {
 			cfg.Preempt = 1
